@@ -20,7 +20,7 @@ RULE = (
     "case = one real word-universe search under the default rule database, run to the end of its "
     "universe; each ruledb.add is mirrored into a shadow memory-saving database and after every "
     "insertion has_specification, key sets, is_verified for all labels, contains() for stored / "
-    "permuted / non-stored keys and the strategy look-up of the new key are compared; at the end every "
+    "permuted / non-stored keys and the strategy look-up of the new key are compared (the handed-back strategy re-applied reproduces the key; for a single-child key in the same store of both databases it is one-way in one exactly when it is in the other); at the end every "
     "key's strategy is looked up in both. non-trivial = >= 12 insertions incl. a two-way key and a "
     "verified class another strategy could expand or a factory; case kind table = an integer universe "
     "as strategies (rule graphs the word universe cannot produce: one-way single-child rules, and a "
